@@ -112,7 +112,7 @@ namespace
   template<typename DT>
   void unit_vectors(verif::Ctx& c, const std::string& kname)
   {
-    const int N = c.thorough ? 10 : 7;
+    const int N = c.thorough ? 14 : 10;
     for(int n = 0; n <= N; ++n) for(unsigned S = 0; S < (1u << n); ++S) for(int order = 0; order < NUM_ORD; ++order) for(int op = 0; op < 4; ++op)
     {
       if(order == ORD_ARRAY && S == 0) continue;     // the array constructor asserts size > 0 and needs non-empty arrays
@@ -141,11 +141,12 @@ namespace
   void unit_csr(verif::Ctx& c, const std::string& kname)
   {
     typedef SparseMatrixCSR<DT, Index> Mat;
-    const int NM = c.thorough ? 4 : 3;
+    const int NM = c.thorough ? 5 : 4;
     for(int n = 1; n <= NM; ++n) for(int m = 1; m <= NM; ++m)
     {
-      if(n * m > 12 && !(n == 4 && m == 4)) continue;
-      if(n == 4 && m == 4 && !c.thorough) continue;
+      // quick: all shapes up to 4x4; thorough adds 4x5 (2^20 patterns) for double
+      if(n == 5) continue;
+      if(m == 5 && (n != 4 || sizeof(DT) != sizeof(double))) continue;
       for(unsigned pat = 0; pat < (1u << (n * m)); ++pat) for(unsigned S = 0; S < (1u << n); ++S) for(int mop = 0; mop < 3; ++mop)
       {
         // the donor of filter_weak_matrix_rows must share the layout arrays (asserted) = weak clone; a matrix without
@@ -235,10 +236,10 @@ int main(int argc, char** argv)
   verif::Spec spec; spec.property = "C06"; spec.harness = "c06_filter";
   spec.rule = "cases = (filter kind, vector length / matrix shape, constrained index set, construction order, prescribed values/normals/weights, operation). "
     "Non-trivial iff at least one entry is constrained (unit/slip), the weight vectors are non-empty (mean), resp. the matrix has stored entries; hashed by all enumeration coordinates.";
-  spec.bounds_quick = "UnitFilter<double|float>: n=0..7, all 2^n index sets, 5 construction orders, 4 ops x (once,twice); CSR: all patterns of all shapes <=3x3 x all row sets x 3 matrix ops (+dense solve); "
-    "UnitFilterBlocked<2|3>: 0..3 blocks, all sets, NaN masks; BCSR<2,2|2,3|3,2> all patterns <=2x2; SlipFilter<2|3>: 0..3 blocks, all sets, 6 normal lists; MeanFilter/MeanFilterBlocked/Global::MeanFilter: n=0..5, 4 weight pairs; "
-    "NoneFilter; FilterChain, FilterSequence, TupleFilter, PowerFilter, Global::Filter over all index-set tuples for n<=3";
-  spec.bounds_thorough = "as quick with n<=10 (unit vectors), CSR shapes up to 4x4 (all 65536 patterns) and 3x4/4x3, blocks 0..4, BCSR patterns up to 3x3, mean n<=8, combinators n<=4";
+  spec.bounds_quick = "UnitFilter<double|float>: n=0..10, all 2^n index sets, 5 construction orders, 4 ops x (once,twice); CSR: all patterns of all shapes <=4x4 (65536 patterns of 4x4) x all row sets x 3 matrix ops (+dense solve); "
+    "UnitFilterBlocked<2|3>: 0..4 blocks, all sets, NaN masks; BCSR<2,2|2,3|3,2> all block patterns <=3x3; SlipFilter<2|3>: 0..4 blocks, all sets, 6 normal lists; MeanFilter/MeanFilterBlocked/Global::MeanFilter: n=0..8, 4 weight pairs; "
+    "NoneFilter; FilterChain, FilterSequence, TupleFilter, PowerFilter, Global::Filter over all index-set tuples for n<=4 (tuple/power components <=3); 7 entry-free matrix combinations in forked children";
+  spec.bounds_thorough = "as quick with n<=14 (unit vectors), CSR 4x5 in addition (all 2^20 patterns, double), blocks 0..5, mean n<=12, combinators n<=5 (tuple/power components <=4)";
   spec.assumptions = {
     "generic backend; reference models in long double (c06_common.hpp); == is numeric equality, 'bitwise' is memcmp",
     "excluded (documented/asserted preconditions): zero normals and non-positive volumes; vectors whose size differs from the filter size; duplicate indices only in the 'add twice' construction (last value counts, as verified for SparseVector in C04)",
